@@ -57,7 +57,7 @@ def run(tier, replay):
             if resk.violated != "NoBadPerc":
                 raise vlib.Inconclusive("the model of the unrepaired statistics does not show the forgotten drop (%s)" % resk.violated)
         cases = []
-        nsim = 60 if tier == "quick" else 500
+        nsim = 60 if tier == "quick" else 2500
         for pre, cap, flt in [("PreLine", 100, True), ("PrePartial", 1, False), ("PreNone", 2, True), ("PreLine", 1, True), ("PrePartial", 100, False)]:
             rs = vlib.tlc(wd, "MC_Tail", "S.cfg", files={"S.cfg": cfg(pre, 6, min(cap, 9), 3, flt, True, inv="EmitHist", view=False)}, timeout=600,
                           workers=1, simulate="num=%d" % nsim, extra=["-depth", "60", "-seed", str(vlib.seed())])
@@ -72,7 +72,7 @@ def run(tier, replay):
         if len(cases) < 10:
             raise vlib.Inconclusive("too few behaviours from TLC: %d" % len(cases))
         rng.shuffle(cases)
-        cases = cases[:(150 if tier == "quick" else 1500)]
+        cases = cases[:(150 if tier == "quick" else 6000)]
         for i in range(12 if tier == "quick" else 80):
             cases.append({"id": 0, "pre": rng.choice(list(PRE.values())), "steps": [], "cap": rng.choice([1, 2, 100]), "filter": rng.random() < 0.6,
                           "seed": rng.randrange(1 << 40), "bulk": rng.choice([60, 120, 300])})
